@@ -1591,7 +1591,7 @@ func run(r *ev.Run) {
 			nd := 0
 			for _, c := range cases {
 				if r.Thorough() {
-					c.selectDerived(6, 3)
+					c.selectDerived(4, 2)
 				} else {
 					c.selectDerived(2, 1)
 				}
